@@ -88,6 +88,7 @@ except ImportError:
     sph_harm_y = lambda n, m, theta, phi: sph_harm(m, n, phi, theta)
 
 from pde.grids.base import DimensionError, GridBase
+from pde.grids.cylindrical import CylindricalSymGrid
 from pde.grids.spherical import volume_from_radius
 from pde.tools.numba import jit
 
@@ -409,6 +410,12 @@ def polar_coordinates(
     # calculate the difference vector between all cells and the origin
     origin_grid = grid.transform(origin, source="cartesian", target="grid")  # type: ignore
     diff = grid.difference_vector(origin_grid, grid.cell_coords)
+    if isinstance(grid, CylindricalSymGrid) and grid.periodic[1]:
+        # py-pde applies the periodicity of the axial coordinate to the wrong Cartesian
+        # component, so we here ensure the shortest difference along the symmetry axis
+        z_min, z_max = grid.axes_bounds[1]
+        size = z_max - z_min
+        diff[..., 2] = (diff[..., 2] + size / 2) % size - size / 2
     dist: np.ndarray = np.linalg.norm(diff, axis=-1)  # get distance
 
     # determine distance and optionally angles for these vectors
